@@ -16,12 +16,14 @@ NOTE = ("Trusted base: the virtual-time kernel (vlib/simkernel.py) and bus model
 # id -> (level, text, design_ref)   only checks listed here are claimed
 BUILT = {
  "C01": ("exploration", "Generated networks of 2-4 real stacks with overlapping transfers, independent windows and per-receiver latencies incl. re-entrant delivery, judged by a reference delivery model (multiset equality per listener, both directions). Reaches schedules/latencies the real-time suite cannot produce; covers thousands of networks per run.", "5/C01"),
+ "C02": ("exploration", "Generated FD networks with bursts of up to 14 simultaneous sessions per stack (one or both directions, staggered waves) judged by a reference delivery model and a reference capacity model (first 8 RTS/CTS + 4 BAM accepted, further calls refused without a frame).", "5/C02"),
  "C03": ("exploration", "Differential testing against an independent implementation of the SAE frame layouts (reference peer + strict decoder) in both roles, both layers, RTS/CTS and BAM, with the peer's legal choices generated; a symmetric encoder+decoder mistake passes stack-vs-stack tests but fails here.", "5/C03"),
  "C06": ("fault_enumeration", "Every single frame loss and every silence point of either peer, for 110 transfer shapes on both data link layers, enumerated completely per shape (k over all bus frames), with recovery follow-up; payload/latency draws by Hypothesis.", "5/C06"),
  "C07": ("exploration", "Grammar-based fuzzing: protocol-aware frame sequences (all control bytes, boundary fields, spoofed sources, gaps up to beyond every timeout) injected while own transfers run; liveness via thread state and a deterministic busy-spin watchdog, then timer, release and follow-up-transfer oracles.", "5/C07"),
  "C08": ("exploration", "Every traced source line of either job thread as a pre-emption point (3 durations) for 8 transfer shapes, differential against the un-pre-empted run; double pre-emptions sampled. Line-granular, not bytecode-granular.", "5/C08"),
  "C09": ("exploration", "Trace monitor over the time-stamped bus log of generated sessions (stack vs reference peer in both roles, stack vs stack): clearance per CTS, order, holds, BAM and connection-mode pacing, grant bounds.", "5/C09"),
  "C10": ("exploration", "Model-based testing of transfer histories with injected fates and inbound sessions on arbitrary session numbers against a reference capacity model, then a full-concurrency probe that must be accepted and delivered and one more call that must be refused without a frame.", "5/C10"),
+ "C11": ("exploration", "Generated send_pgn sequences (packing boundaries, time limits, FEFF/FBFF, app/timer context) with an independent multi-PG reference unpacker over every emitted frame, delivery multiset per listener, and a deadline monitor.", "5/C11"),
  "C12": ("exploration", "Generated operation histories executed on the real ECU job thread under a virtual-time kernel and compared with a reference timer model: call windows per registration, no drift, no call after removal, no missing call; includes exact deadline/clock coincidences.", "5/C12"),
  "C15": ("exploration", "PGN space (2^18) enumerated in both tiers, identifier space (2^29) enumerated in the thorough tier (stride sample + boundaries in quick), NAME space covered by exhaustive per-field sweeps, single bits, boundary tuples and Hypothesis draws, all against an independent reference codec.", "5/C15"),
 }
